@@ -140,6 +140,10 @@ def generate(repo):
     vs = expect('send: V(S) update', assigns_to(snd, 'self.send_cnt'), 1)[0]
     before(wh, ns, 'send: N(S) assigned after the window test')
     before(ns, vs, 'send: N(S) must be taken before V(S) is advanced')
+    hand = expect('send: hand-over to the base class send()', nodes(
+        snd, ast.Call, lambda n: ast.unparse(n.func) == 'super(DataLinkConnection, self).send'), 1)[0]
+    # a blocking base-class send() releases the lock while it waits: V(S) must be advanced before
+    before(vs, hand, 'send: V(S) must be advanced before the PDU is handed to the base class send()')
     out.append(kernel('gen_dlc_send_ns', ns.value, [('send_cnt', I)]))
     out.append(kernel('gen_dlc_send_vs', vs.value, [('send_cnt', I)]))
 
